@@ -1081,7 +1081,7 @@ func (p *Parser) parseSpaceless(parser *Parser) (Node, error) {
 
 	// Expect the block end token
 	if parser.tokenIndex >= len(parser.tokens) ||
-		(parser.tokens[parser.tokenIndex].Type != TOKEN_BLOCK_END &&
+		(!isBlockEndToken(parser.tokens[parser.tokenIndex].Type) &&
 			parser.tokens[parser.tokenIndex].Type != TOKEN_BLOCK_END_TRIM) {
 		return nil, fmt.Errorf("expected block end token after spaceless at line %d", spacelessLine)
 	}
@@ -1094,7 +1094,7 @@ func (p *Parser) parseSpaceless(parser *Parser) (Node, error) {
 	}
 
 	// Expect endspaceless tag
-	if parser.tokenIndex >= len(parser.tokens) || parser.tokens[parser.tokenIndex].Type != TOKEN_BLOCK_START {
+	if parser.tokenIndex >= len(parser.tokens) || !isBlockStartToken(parser.tokens[parser.tokenIndex].Type) {
 		return nil, fmt.Errorf("expected endspaceless tag at line %d", spacelessLine)
 	}
 	parser.tokenIndex++
@@ -1108,7 +1108,7 @@ func (p *Parser) parseSpaceless(parser *Parser) (Node, error) {
 
 	// Expect the block end token
 	if parser.tokenIndex >= len(parser.tokens) ||
-		(parser.tokens[parser.tokenIndex].Type != TOKEN_BLOCK_END &&
+		(!isBlockEndToken(parser.tokens[parser.tokenIndex].Type) &&
 			parser.tokens[parser.tokenIndex].Type != TOKEN_BLOCK_END_TRIM) {
 		return nil, fmt.Errorf("expected block end token after endspaceless at line %d", parser.tokens[parser.tokenIndex].Line)
 	}
